@@ -78,8 +78,12 @@ def _stable_attrs(ct, cls) -> set[str] | None:
     return written - written_late
 
 
-def _pure_expr(e, locals_, stable) -> bool:
+def _pure_expr(e, locals_, stable, outer_locals=frozenset(), key_names=frozenset()) -> bool:
+    """pure, deterministic, and a function of the key alone: a local of the enclosing function that is not part of the key (and not derived
+    from it inside the block) would make the table return a value computed for another call's inputs"""
     for n in ast.walk(e):
+        if isinstance(n, ast.Name) and isinstance(n.ctx, ast.Load) and n.id in outer_locals and n.id not in key_names and n.id not in locals_ and n.id != "self":
+            return False
         if isinstance(n, (ast.Await, ast.Yield, ast.YieldFrom, ast.NamedExpr, ast.Lambda, ast.ListComp, ast.SetComp, ast.DictComp, ast.GeneratorExp)):
             return False
         if isinstance(n, ast.Call):
@@ -133,15 +137,15 @@ def fold_memo(ct) -> list[str]:
         claimed: set[int] = set()
         rewrites = []  # (statement list, index, replacement statements)
 
-        def scan(body, owner):
+        def scan(body, owner, outer=frozenset()):
             for i, st in enumerate(body):
                 for f_ in ("body", "orelse", "finalbody"):
                     v = getattr(st, f_, None)
                     if isinstance(v, list) and v and isinstance(v[0], ast.stmt) and not isinstance(st, (ast.FunctionDef, ast.ClassDef)):
-                        scan(v, owner)
+                        scan(v, owner, outer)
                 if isinstance(st, ast.Try):
                     for h in st.handlers:
-                        scan(h.body, owner)
+                        scan(h.body, owner, outer)
                 # form 1
                 if isinstance(st, ast.Assign) and len(st.targets) == 1 and isinstance(st.targets[0], ast.Name) and isinstance(st.value, ast.Call) \
                         and isinstance(st.value.func, ast.Attribute) and st.value.func.attr == "get" and _is_self_attr(st.value.func.value, c) \
@@ -161,9 +165,10 @@ def fold_memo(ct) -> list[str]:
                         continue
                     locals_ = set()
                     okc = True
+                    key_names = frozenset(n.id for n in ast.walk(key) if isinstance(n, ast.Name))
                     for s_ in comp:
                         if not (isinstance(s_, ast.Assign) and all(isinstance(t, ast.Name) or (isinstance(t, ast.Tuple) and all(isinstance(e, ast.Name) for e in t.elts))
-                                                                   for t in s_.targets) and _pure_expr(s_.value, locals_, stable)):
+                                                                   for t in s_.targets) and _pure_expr(s_.value, locals_, stable, outer, key_names)):
                             okc = False
                             break
                         for t in s_.targets:
@@ -179,7 +184,8 @@ def fold_memo(ct) -> list[str]:
 
         for k in ct.by_qual.values():
             for fn in k.methods.values():
-                scan(fn.body, k)
+                outer_ = frozenset({a.arg for a in fn.args.args + fn.args.kwonlyargs} | {n.id for n in ast.walk(fn) if isinstance(n, ast.Name) and isinstance(n.ctx, ast.Store)})
+                scan(fn.body, k, outer_)
         if not rewrites or {id(n) for n in occurrences} != claimed:
             continue
         for body, st, nx, comp in rewrites:
